@@ -13,7 +13,25 @@ def tmpdir():
     global _TMP
     if _TMP is None or not os.path.isdir(_TMP):
         _TMP = tempfile.mkdtemp(prefix="pyvc-h-")
+        _register_cleanup(_TMP, os.getpid())
     return _TMP
+
+
+def _register_cleanup(path, pid):
+    """the scratch directory of a harness worker is removed when that worker exits (also a forked pool worker: those leave through
+    os._exit, so multiprocessing's finalizer hook is used next to atexit)"""
+    import atexit
+    import shutil
+
+    def _rm():
+        if os.getpid() == pid:
+            shutil.rmtree(path, ignore_errors=True)
+    atexit.register(_rm)
+    try:
+        from multiprocessing.util import Finalize
+        Finalize(None, _rm, exitpriority=1)
+    except Exception:      # noqa: BLE001
+        pass
 
 
 def write_tmp(text, suffix=".pddl"):
